@@ -277,6 +277,8 @@ pub fn run_case(tape: &mut Tape, _tier: Tier, _p: &CaseParams) -> CaseOutcome {
     if let Some(mut imp) = importer {
       imp.items.push(Item::new(Form::SideEffect, y));
       world.add_desc(imp);
+      // an alias of the edited module serves what the module serves
+      crate::world::refresh_aliases(&mut world);
       out.count("probe.entry_that_is_also_a_redirect_source", 1);
     }
   }
